@@ -114,8 +114,9 @@ def get_widths2(seq: Iterable[object]) -> Dict[int, Tuple[float, Point]]:
             r.append(v)
             if len(r) == 5:
                 (char1, char2, w, vx, vy) = r
-                for i in range(cast(int, char1), min(cast(int, char2), MAX_CID) + 1):
-                    widths[i] = (w, (vx, vy))
+                if isinstance(char1, int) and isinstance(char2, int):
+                    for i in range(char1, min(char2, MAX_CID) + 1):
+                        widths[i] = (w, (vx, vy))
                 r = []
     return widths
 
